@@ -126,6 +126,17 @@ class Class:
                     if isinstance(t, ast.Name):
                         self.attrs[t.id] = st.value
                         self.order.append(t.id)
+                    elif isinstance(t, (ast.Tuple, ast.List)) and all(isinstance(e, ast.Name) for e in t.elts):
+                        # A, B = x, y   /   A, B, C = range(3)  (the i-th component of the value)
+                        if isinstance(st.value, (ast.Tuple, ast.List)) and len(st.value.elts) == len(t.elts):
+                            pairs = list(zip(t.elts, st.value.elts))
+                        else:
+                            pairs = [(e, ast.copy_location(ast.fix_missing_locations(
+                                ast.Subscript(value=ast.Call(func=ast.Name(id="list", ctx=ast.Load()), args=[st.value], keywords=[]),
+                                              slice=ast.Constant(i), ctx=ast.Load())), st.value)) for i, e in enumerate(t.elts)]
+                        for e, v in pairs:
+                            self.attrs[e.id] = v
+                            self.order.append(e.id)
             elif isinstance(st, ast.AnnAssign) and isinstance(st.target, ast.Name):
                 self.annots[st.target.id] = st.annotation
                 self.order.append(st.target.id)
@@ -179,7 +190,8 @@ class Module:
                                 self.assigns[e.id] = v
                         else:
                             for i, e in enumerate(t.elts):
-                                sub = ast.Subscript(value=st.value, slice=ast.Constant(i), ctx=ast.Load())
+                                sub = ast.Subscript(value=ast.Call(func=ast.Name(id="list", ctx=ast.Load()), args=[st.value], keywords=[]),
+                                                    slice=ast.Constant(i), ctx=ast.Load())
                                 self.assigns[e.id] = ast.copy_location(ast.fix_missing_locations(sub), st.value)
             elif isinstance(st, ast.AnnAssign) and isinstance(st.target, ast.Name) and st.value is not None:
                 self.assigns[st.target.id] = st.value
@@ -286,9 +298,13 @@ class Repo:
         cur = None
         if parts[0] in m.classes and len(parts) >= 2:
             c = m.classes[parts[0]]
-            if parts[1] not in c.methods:
-                raise AnchorMissing(f"function {qual} not found")
-            cur = c.methods[parts[1]]
+            if parts[1] in c.methods:
+                cur = c.methods[parts[1]]
+            else:
+                # a method the class inherits from a repository base class (moved into a mixin / base): the anchor is where it lives now
+                cur = self.lookup_method(c, parts[1])
+                if cur is None:
+                    raise AnchorMissing(f"function {qual} not found")
             parts = parts[2:]
         elif parts[0] in m.funcs:
             cur = m.funcs[parts[0]]
